@@ -9,7 +9,7 @@ from engine import tlc, core, tracecheck
 
 ADAPTER = "harness.adapters_c16:Adapter"
 ACTIONS = ["MakeText", "MakeBin", "Reparse", "Props", "Mutate", "MutateSource", "InNet", "InNetInfer",
-           "GetNetwork", "ToStr6", "SetMac6", "CidrToMask", "MaskToCidr", "ParseCidr", "DpidToStr",
+           "GetNetwork", "ToStr6", "SetMac6", "CidrToMask", "MaskToCidr", "ParseCidr", "ParseCidrAgain", "DpidToStr",
            "StrToDpid", "DpidRound"]
 EXPORTS = {"quick": ["EX_q_v4.cfg", "EX_q_v6.cfg", "EX_q_md.cfg"],
            "thorough": ["EX_q_v4.cfg", "EX_q_v6.cfg", "EX_t_v4a.cfg", "EX_t_v4b.cfg", "EX_t_v4c.cfg", "EX_t_v6a.cfg",
